@@ -2,7 +2,11 @@
 (MIR field projections are by index)."""
 import os, re
 
-SRC = "/repo/src"
+import sys
+sys.path.insert(0, os.path.join(os.path.dirname(os.path.dirname(os.path.abspath(__file__))), "lib"))
+import vpaths
+REPO = vpaths.REPO
+SRC = REPO + "/src"
 
 
 def scan_types():
@@ -12,7 +16,7 @@ def scan_types():
         for f in fs:
             if not f.endswith(".rs"): continue
             p = os.path.join(dp, f)
-            rel = os.path.relpath(p, "/repo")
+            rel = os.path.relpath(p, REPO)
             txt = open(p, errors="replace").read()
             for m in re.finditer(r"^\s*(?:pub(?:\([^)]*\))?\s+)?(?:struct|union|enum)\s+([A-Za-z_]\w*)", txt, re.M):
                 out.setdefault(m.group(1), rel)
@@ -22,7 +26,7 @@ def scan_types():
 
 
 def struct_fields(rel_file, name):
-    txt = open(os.path.join("/repo", rel_file), errors="replace").read()
+    txt = open(os.path.join(REPO, rel_file), errors="replace").read()
     m = re.search(r"(?:struct|union)\s+%s\b[^{;]*\{" % re.escape(name), txt)
     if not m: raise KeyError("struct %s not found in %s" % (name, rel_file))
     i = m.end(); depth = 1; j = i
